@@ -291,13 +291,16 @@ def run_mon(key, op, shape, variant, tie, mk):
             if l is not None:
                 call_kw['limit_sigma'] = l
         a = _call(m, op, teams, _ranks_for(shape, tie) if op == 'rate' else None, **call_kw)
+        nhash = len(hash_calls)
+        d1 = {k: v for k, v in m.__dict__.items() if k != '_armed'}
+        same_dict = d0.keys() == d1.keys() and all(d0[k] is d1[k] for k in d0)
+        m2 = Model(**kw)
+        teams2 = [[m2.rating(mk(H.pname('mu', i, j)), mk(H.pname('sg', i, j))) for j in range(n)] for i, n in enumerate(shape)]
+        # (the recording __hash__ stays installed: a symbolic value is unhashable, the run on rebuilt ratings must not die of it)
+        b = _call(m2, op, teams2, _ranks_for(shape, tie) if op == 'rate' else None, **call_kw)
     finally:
         Rating.__hash__ = orig_hash
-    d1 = {k: v for k, v in m.__dict__.items() if k != '_armed'}
-    same_dict = d0.keys() == d1.keys() and all(d0[k] is d1[k] for k in d0)
-    m2 = Model(**kw)
-    teams2 = [[m2.rating(mk(H.pname('mu', i, j)), mk(H.pname('sg', i, j))) for j in range(n)] for i, n in enumerate(shape)]
-    b = _call(m2, op, teams2, _ranks_for(shape, tie) if op == 'rate' else None, **call_kw)
+    hash_calls[:] = [1] * nhash
     return list(wlog), same_dict, list(ids_log), len(hash_calls), a, b
 
 
@@ -439,6 +442,39 @@ def run_job(spec, ctx):
                 break
 
 
+def _id_dependence(key, op, shape, variant, tie, inp):
+    """same values, different ids/names: distinct (fresh) vs all equal, on the given inputs and on inputs with every player's
+    values made equal (a set or dict keyed by ratings collapses equal-id equal-value objects).  Returns a description or None."""
+    Model = H.model_class(key)
+    eq = dict(inp)
+    for i, n in enumerate(shape):
+        for j in range(n):
+            eq[H.pname('mu', i, j)] = inp[H.pname('mu', 0, 0)]
+            eq[H.pname('sg', i, j)] = inp[H.pname('sg', 0, 0)]
+    for vals in (inp, eq, dict(inp, tau=0.5 * inp['beta']), dict(eq, tau=0.5 * inp['beta'])):
+        outs = []
+        for same_ids in (False, True):
+            m = Model(beta=vals['beta'], kappa=vals['kappa'], tau=vals['tau'])
+            teams = [[m.rating(vals[H.pname('mu', i, j)], vals[H.pname('sg', i, j)]) for j in range(n)] for i, n in enumerate(shape)]
+            if same_ids:
+                for t in teams:
+                    for p in t:
+                        p.id, p.name = 'one-id', 'one-name'
+            kw = {}
+            if op == 'rate' and len(variant) >= 2:
+                if variant[0] is not None:
+                    kw['tau'] = vals.get('t1', 0.0) if variant[0] == 'sym' else variant[0]
+                if variant[1] is not None:
+                    kw['limit_sigma'] = variant[1]
+            try:
+                outs.append(list(H._flatten(_call(m, op, teams, _ranks_for(shape, tie) if op == 'rate' else None, **kw))))
+            except Exception as e:  # noqa: BLE001
+                outs.append(repr(e))
+        if outs[0] != outs[1]:
+            return f'with values {[vals[n_] for n_ in sorted(vals) if n_.startswith(("mu_", "sg_"))]}: distinct ids give {outs[0]}, equal ids give {outs[1]}'
+    return None
+
+
 def replay(cand):
     if cand.get('mode') == 'sched':
         return SCHED.replay_sched(cand)
@@ -474,8 +510,10 @@ def replay(cand):
         detail = f'model attributes written during the call: {sorted(set(wlog))}'
         key_extra = 'write:' + ','.join(sorted(set(wlog)))
     elif what == 'inspect':
-        bad = bool(ids_log) or nhash > 0
-        detail = f'ids/names inspected: {ids_log[:4]}, Rating.__hash__ calls: {nhash}'
+        # consulting ids / names / hashes is only the premise; the property is about the NUMBERS: show that they move with the ids
+        shown = _id_dependence(key, op, shape, variant, cand['tie'], inp)
+        bad = (bool(ids_log) or nhash > 0) and shown is not None
+        detail = f'ids/names inspected: {ids_log[:4]}, Rating.__hash__ calls: {nhash}; ' + (shown or 'no dependence of the numbers on ids/names could be shown')
         key_extra = 'inspect'
     else:
         bad = len(fa) != len(fb) or any(x != y for x, y in zip(fa, fb))
